@@ -415,7 +415,7 @@ def run(chk, tier, replay):
 def _run(chk, tier, replay, binary, fdir, extra_paths):
     import time
     t0 = time.time()
-    step = 7 if tier == "quick" else 1
+    step = 7 if tier == "quick" and not replay else 1
     if replay:
         case = json.load(open(replay))["case"]
         groups = [(case["ops"], case["codec"], case["page"], True, True)]
